@@ -271,6 +271,13 @@ def items_unit(u):
         compare(judge, st, mon, f"items{u['n']}", head.strip(), sug, exp,
                 inputs, ref)
         check_documented_values(judge, st, mon, head.strip(), sug, inputs)
+        if u["n"] == 1 and "(" in head:
+            # the same rule carrying an action decorator: the decorator names
+            # the action of S only, the group stays an anonymous rule with
+            # the default result (pass_single makes the group's value S's)
+            compare(judge, st, mon, "items1/decorated",
+                    "@pass_single " + head.strip(), "@pass_single " + sug,
+                    "@pass_single " + exp, inputs)
         st["shapes"] += 1
         if not samples:
             samples.append({"sugared": head.strip(), "expansion": exp,
